@@ -119,11 +119,26 @@ Theorem C18_then_left_alone :
 Proof. exact left_alone. Qed.
 Print Assumptions C18_then_left_alone.
 
-(* C18_crawl_terminates_partial: "a crawl of a finite site therefore terminates" is proved here per
-   URL only (C18_tries + C18_then_left_alone: finitely many visits, each finite by
-   C18_visit_ends_in_status).  The step from per-URL to whole-crawl termination needs the URL table
-   and the finite site (Model/Engine.v, C01_terminates_final - another builder's file) and is
-   carried here by the end-to-end runs (every crawl of the correspondence must exit by itself). *)
+(* 5. "A crawl of a finite site therefore terminates": over the rows of a finite site (a row discovered
+      later is a row not scheduled earlier), for an ARBITRARY scheduler (which row the item source hands
+      out next) and arbitrary servers, the number of visits is bounded by the budget of the table
+      (<= rows * (tries + 1) from a fresh table), the requests by budget * 2 * (max_redirects + 1); when
+      the budget is used up no row is checked out any more.  Boundary (stated): insertion and
+      de-duplication of discovered URLs is the URL table's business (C14, C01). *)
+Theorem C18_crawl_terminates :
+  forall urljoin parseable (cfg : config) (tries : Z) sched rows rows' evs n,
+    (forall r, List.In r rows -> forall tc url w, (tries <= tc)%Z -> cr_consult r tc url w = false) ->
+    crawl urljoin parseable cfg sched rows = (rows', evs, n) ->
+    (n + crawl_budget tries rows' <= crawl_budget tries rows)%nat /\
+    (total_requests evs <= n * (2 * (Z.to_nat (c_max_redirects cfg) + 1)))%nat.
+Proof. exact crawl_terminates. Qed.
+Print Assumptions C18_crawl_terminates.
+
+Theorem C18_budget_used_up_means_finished :
+  forall (tries : Z) rows, crawl_budget tries rows = 0%nat ->
+    forall r, List.In r rows -> checked_out (cr_item r) = false.
+Proof. exact crawl_budget_zero_all_final. Qed.
+Print Assumptions C18_budget_used_up_means_finished.
 
 (* ---------------------------------------------------------------- non-vacuity *)
 (* a redirect loop: max_redirects 2 -> 3 requests, then 'Too many redirects' (error); with tries 2
@@ -141,4 +156,18 @@ Example C18_nonvacuous :
   let '(i, evs) := visits ex_join (fun _ => true) ex_cfg (ex_consult 2) ex_url
                      (repeat ((fun _ => RAllow), ex_loop_server) 5) {| it_status := ITodo; it_tries := 0 |} in
   i = {| it_status := ISkipped; it_tries := 3 |} /\ map count_requests evs = [3; 3; 0; 0; 0]%nat.
+Proof. vm_compute. repeat split. Qed.
+
+(* two rows (a redirect loop and a page that answers 200), scheduled unfairly: 4 effective visits, then
+   everything is final and further steps are no-ops *)
+Example C18_crawl_nonvacuous :
+  let ok_server : list req -> sresp := fun _ => Resp 200 None in
+  let rows := [ {| cr_url := ex_url; cr_consult := ex_consult 2; cr_item := {| it_status := ITodo; it_tries := 0 |} |};
+                {| cr_url := [99]%N; cr_consult := ex_consult 2; cr_item := {| it_status := ITodo; it_tries := 0 |} |} ] in
+  let sched := [ (0%nat, ((fun _ => RAllow), ex_loop_server)); (0%nat, ((fun _ => RAllow), ex_loop_server));
+                 (1%nat, ((fun _ => RAllow), ok_server)); (0%nat, ((fun _ => RAllow), ex_loop_server));
+                 (1%nat, ((fun _ => RAllow), ok_server)); (0%nat, ((fun _ => RAllow), ex_loop_server)) ] in
+  crawl_budget 2 rows = 6%nat /\
+  let '(rows', evs, n) := crawl ex_join (fun _ => true) ex_cfg sched rows in
+  n = 4%nat /\ crawl_budget 2 rows' = 0%nat /\ map count_requests evs = [3; 3; 1; 0; 0; 0]%nat.
 Proof. vm_compute. repeat split. Qed.
